@@ -31,9 +31,8 @@ Proof.
     intros; apply s_set_on_receiver_only; auto.
 Qed.
 
-(* the same for goja's setOwn*/setForeign* walk (I), on the current tree for string and index keys and,
-   with the setForeignSym repair, for symbols: only the receiver's dump can change (ensurePropOrder on
-   the objects of the chain is invisible) *)
+(* the same for goja's setOwn*/setForeign* walk (I), all key kinds: only the receiver's dump can change
+   (ensurePropOrder on the objects of the chain is invisible) *)
 Lemma ensure_order_idem : forall s, ensure_order (ensure_order s) = ensure_order s.
 Proof.
   intro s. unfold ensure_order.
@@ -63,11 +62,11 @@ Proof. intros. rewrite ihget_iupd. destruct (_ && _); auto using i_dump_ensure. 
 
 Definition walk_heap (x : iheap * bool * bool * list event) : iheap := fst (fst (fst x)).
 
-Lemma i_setwalk_only_receiver : forall fuel fx h own o k num v r,
-  is_sym k && negb (fix_f2 fx) = false -> (own = true -> r = o) ->
-  forall j, j <> r -> i_dump (ihget (walk_heap (i_setwalk fuel fx h own o k num v r)) j) = i_dump (ihget h j).
+Lemma i_setwalk_only_receiver : forall fuel h own o k num v r,
+  (own = true -> r = o) ->
+  forall j, j <> r -> i_dump (ihget (walk_heap (i_setwalk fuel h own o k num v r)) j) = i_dump (ihget h j).
 Proof.
-  induction fuel as [|f IH]; intros fx h own o k num v r Hf Hown j Hj; [reflexivity|].
+  induction fuel as [|f IH]; intros h own o k num v r Hown j Hj; [reflexivity|].
   simpl. destruct own.
   - specialize (Hown eq_refl). subst r.
     destruct (i_getown (ihget h o) k) as [[v0|p]|] eqn:G.
@@ -76,8 +75,8 @@ Proof.
       unfold i_prop_set. destruct (vp_setter p); unfold walk_heap; simpl; auto.
       now rewrite ihget_iupd_other by auto.
     + destruct (i_proto (ihget h o)) as [p|].
-      * specialize (IH fx h false p k false v o Hf (fun H => ltac:(discriminate H)) j Hj).
-        destruct (i_setwalk f fx h false p k false v o) as [[[h1 res] handled] ev].
+      * specialize (IH h false p k false v o (fun H => ltac:(discriminate H)) j Hj).
+        destruct (i_setwalk f h false p k false v o) as [[[h1 res] handled] ev].
         unfold walk_heap in *; simpl in *.
         destruct handled; simpl; auto.
         destruct (negb (i_ext (ihget h1 o))); simpl; auto.
@@ -93,28 +92,25 @@ Proof.
     + destruct (negb (vp_isWritable p)); [unfold walk_heap; simpl; auto|].
       destruct (vp_setter p); unfold walk_heap; simpl; auto.
     + destruct (i_proto (ihget h0 o)) as [p|]; [|unfold walk_heap; simpl; auto].
-      replace (if is_sym k && negb (fix_f2 fx) then negb (Nat.eqb r o) else negb (Nat.eqb r p))
-        with (negb (Nat.eqb r p)) by (now rewrite Hf).
       destruct (Nat.eqb r p) eqn:E; simpl.
       * apply Nat.eqb_eq in E. subst p.
-        specialize (IH fx h0 true r k false v r Hf (fun _ => eq_refl) j Hj).
-        destruct (i_setwalk f fx h0 true r k false v r) as [[[h1 res] hd] ev].
+        specialize (IH h0 true r k false v r (fun _ => eq_refl) j Hj).
+        destruct (i_setwalk f h0 true r k false v r) as [[[h1 res] hd] ev].
         unfold walk_heap in *; simpl in *. now rewrite IH.
       * rewrite IH; auto. discriminate.
 Qed.
 
-Lemma i_set_only_receiver : forall fx h o k num v r,
-  is_sym k && negb (fix_f2 fx) = false ->
-  forall j, j <> r -> i_dump (ihget (fst (fst (i_set fx h o k num v r))) j) = i_dump (ihget h j).
+Lemma i_set_only_receiver : forall h o k num v r,
+  forall j, j <> r -> i_dump (ihget (fst (fst (i_set h o k num v r))) j) = i_dump (ihget h j).
 Proof.
-  intros fx h o k num v r Hf j Hj. unfold i_set.
+  intros h o k num v r j Hj. unfold i_set.
   destruct (Nat.eqb r o) eqn:E.
   - apply Nat.eqb_eq in E. subst o.
-    pose proof (i_setwalk_only_receiver (S (S (length h))) fx h true r k num v r Hf (fun _ => eq_refl) j Hj) as W.
-    destruct (i_setwalk (S (S (length h))) fx h true r k num v r) as [[[h1 res] hd] ev]. exact W.
-  - pose proof (i_setwalk_only_receiver (S (S (length h))) fx h false o k num v r Hf
+    pose proof (i_setwalk_only_receiver (S (S (length h))) h true r k num v r (fun _ => eq_refl) j Hj) as W.
+    destruct (i_setwalk (S (S (length h))) h true r k num v r) as [[[h1 res] hd] ev]. exact W.
+  - pose proof (i_setwalk_only_receiver (S (S (length h))) h false o k num v r
                   (fun H => ltac:(discriminate H)) j Hj) as W.
-    destruct (i_setwalk (S (S (length h))) fx h false o k num v r) as [[[h1 res] hd] ev].
+    destruct (i_setwalk (S (S (length h))) h false o k num v r) as [[[h1 res] hd] ev].
     unfold walk_heap in W; simpl in W.
     destruct hd; simpl; auto.
     destruct (i_getown (ihget h1 r) k) as [[v0|p]|]; simpl.
@@ -129,18 +125,12 @@ Definition f2_sheap : heap := [obj0; mkObj (Some 0) true []; mkObj (Some 1) true
 Definition f2_iheap : iheap := [iobj0; mkIObj (Some 0) true [] names0 []; mkIObj (Some 1) true [] names0 []].
 Definition f2_op := OSet 2 (KSym 0) false (VNum 3) 1.
 
-(* the tree before commit 3750984 wrote to the receiver's prototype here (F2); the current tree agrees with S *)
+(* the former F2 input (the write used to land on the receiver's prototype) and its string-keyed twin *)
 Lemma set_f2_case_agrees :
-  map s_dump (fst (fst (sstep f2_sheap f2_op))) = map i_dump (fst (fst (istep fx_cur f2_iheap f2_op)))
-  /\ map s_dump (fst (fst (sstep f2_sheap f2_op))) <> map i_dump (fst (fst (istep fx_none f2_iheap f2_op))).
-Proof. vm_compute. split; [reflexivity | discriminate]. Qed.
+  map s_dump (fst (fst (sstep f2_sheap f2_op))) = map i_dump (fst (fst (istep f2_iheap f2_op))).
+Proof. vm_compute. reflexivity. Qed.
 
-Lemma i_set_only_receiver_cur : forall h o k num v r,
-  forall j, j <> r -> i_dump (ihget (fst (fst (i_set fx_cur h o k num v r))) j) = i_dump (ihget h j).
-Proof. intros. apply i_set_only_receiver; auto. simpl. apply andb_false_r. Qed.
-
-(* the string-keyed twin of the F2 case is right on the current tree: the defect is a str/sym drift *)
 Lemma set_str_twin_agrees :
   let op := OSet 2 (KStr 0) false (VNum 3) 1 in
-  map s_dump (fst (fst (sstep f2_sheap op))) = map i_dump (fst (fst (istep fx_cur f2_iheap op))).
+  map s_dump (fst (fst (sstep f2_sheap op))) = map i_dump (fst (fst (istep f2_iheap op))).
 Proof. vm_compute. reflexivity. Qed.
